@@ -203,5 +203,37 @@ func propTable() map[string]*PropSpec {
 			Outside:     []string{"two or more adversarial messages in sequence (covered for specific shapes by C10/C01 harnesses); committees other than 4 equal-weight members; NEW_VIEW contents (C07)"},
 		}
 	}
+	// ---------------- C07 ----------------
+	{
+		var q, th []RunConfig
+		nv := func(pf, votes, mask, prep int) RunConfig {
+			c := rc(fmt.Sprintf("C07_NewView/prefix=%d/votes=%d/proofmask=%d/prepares=%d", pf, votes, mask, prep), ".", "C07_NewView", map[string]int{"prefix": pf, "votes": votes, "proofmask": mask, "prepares": prep, "me": -1})
+			c.MaxPaths = 400000
+			return c
+		}
+		locked := nv(3, 3, 1, 2)
+		locked.Name += "/me=2"
+		locked.Params["me"] = 2
+		q = append(q, nv(3, 3, 0, 0), nv(3, 2, 0, 0), nv(0, 3, 0, 0), locked)
+		q[0].RequireReach = []string{"C07.accepted_fresh"}
+		q[3].RequireReach = []string{"C07.accepted_locked"}
+		for _, pf := range []int{0, 3} {
+			c := rc(fmt.Sprintf("C07_BarePreprepare/prefix=%d", pf), ".", "C07_BarePreprepare", map[string]int{"prefix": pf})
+			q = append(q, c)
+			th = append(th, c)
+		}
+		for _, pf := range []int{0, 3, 4} {
+			for votes := 0; votes <= 4; votes++ {
+				th = append(th, nv(pf, votes, 0, 0))
+			}
+			th = append(th, nv(pf, 3, 1, 2), nv(pf, 3, 1, 3), nv(pf, 3, 2, 2), nv(pf, 3, 4, 2))
+		}
+		th = append(th, nv(3, 3, 3, 2), nv(3, 4, 1, 2), nv(3, 3, 5, 2))
+		t["C07"] = &PropSpec{ID: "C07", Quick: q, Thorough: th,
+			Assumptions: []string{"ideal signature registry; proposal validation / commitment stubs; committee of 4 equal weights; node index symbolic"},
+			Bounds:      []string{"one symbolic NEW_VIEW (all header, embedded-proposal and per-vote fields symbolic, 0..4 votes, listed proof masks, <=3 PREPARE senders per proof) or one symbolic PREPREPARE, delivered in prefix states fresh / timed-out / timed-out-with-lock"},
+			Outside:     []string{"the clause about a correct leader proposing only after collecting votes is decided by the C09 harness (leader side); more than 4 votes; several proofs beyond the listed masks"},
+		}
+	}
 	return t
 }
